@@ -424,7 +424,7 @@ class Ctx:
         r = st.get("rule") or rule or ""
         if r:
             self.cov["rule"] = (self.cov["rule"] + " | " if self.cov["rule"] else "") + "%s: %s" % (stream, r)
-        for s in st.get("samples", [])[:5]:
+        for s in (st.get("samples") or [])[:5]:
             self.cov["samples"].append({"stream": stream, "case": s})
         if not st.get("samples") and op_lines:
             self.cov["samples"].append({"stream": stream, "ops": op_lines[:6], "go": go_lines[:6]})
@@ -484,6 +484,9 @@ class Ctx:
         n_viol = 0
         n_known = 0
         lines = []
+        shown = 0
+        known_seen = set()
+        self.violations.sort(key=lambda v: (not v.found_input,))
         for i, v in enumerate(self.violations):
             matched = None
             for e in known:
@@ -491,11 +494,17 @@ class Ctx:
                     matched = e
                     break
             if matched is not None:
-                n_known += 1
-                lines.append("KNOWN-FINDING: property=%s %s [%s]" % (self.pid, matched.get("what", v.what), v.key))
+                if matched["match"] not in known_seen:
+                    known_seen.add(matched["match"])
+                    n_known += 1
+                    lines.append("KNOWN-FINDING: property=%s %s [%s]" % (self.pid, matched.get("what", v.what), v.key))
                 continue
             n_viol += 1
-            rp = os.path.join(REPLAYS, "%s-%s-%d-%d.json" % (self.pid, self.tier, self.seed, i))
+            shown += 1
+            if shown > 8:   # one line per distinct failure, capped; the count is in the summary and evidence
+                continue
+            rp = os.path.join(REPLAYS, "%s-%s-%d-%d%s.json" % (self.pid, self.tier, self.seed, i,
+                                                                "-replayed" if self.replay is not None else ""))
             body = dict(v.replay or {})
             body.update({"property": self.pid, "key": v.key, "what": v.what, "seed": self.seed, "tier": self.tier,
                          "found_failing_input": v.found_input})
